@@ -238,6 +238,10 @@ func (c *Ctx) topReturn(st *State, fr *Frame, results []Val, res *FuncResult) {
 			if cl.Kind != "ensures" {
 				continue
 			}
+			if cl.Assumed {
+				c.V.assumptions["assumed postcondition of "+c.Key+" (used by callers, not proved against the body): "+cl.Src] = true
+				continue
+			}
 			env := c.entryEnv(st, fr)
 			bindResults(env, fr.fn.Signature, rts)
 			env.goal = true
